@@ -66,6 +66,26 @@ theorem gEx16f_trace : (run gEx16f schedEx16f).tr =
      .done 3 false, .done 0 false, .mwait false, .fin 0 false, .fin 1 false, .fin 2 false, .fin 3 false,
      .root false] := by decide
 
+/-- a try block whose body (task 1, in a context of its own) stops its scope at its second command:
+`p, stop, p`; fail handler 2, success handler 3 -/
+def gStop : Graph :=
+  ⟨[⟨.top, 0, 0, [], [.probe, .try_ 0, .probe]⟩, ⟨.tbody 0, 1, 1, [], [.probe, .stop, .probe]⟩,
+    ⟨.hfail 0, 1, 0, [], [.probe]⟩, ⟨.hsucc 0, 1, 0, [], [.probe]⟩],
+   [⟨0, 1, 1, some 3, some 2, none⟩], [0]⟩
+
+/-- RunLoop of the body takes the `<-Done()` branch (label `stop 1`) instead of reading the third command -/
+def schedStop : List Label :=
+  rep 2 .main ++ rep 6 (.task 0) ++ rep 7 (.task 1) ++ [.stop 1, .task 1] ++ rep 4 (.tryg 0) ++ rep 6 (.task 3) ++
+  rep 6 (.task 0) ++ rep 8 .main
+
+theorem gStop_wf : wf gStop = true := by decide
+
+set_option maxRecDepth 8000 in
+theorem gStop_trace : (run gStop schedStop).tr =
+    [.sub 0, .acc 0, .cmd 0 0, .ret 0 0 true, .cmd 0 1, .ret 0 1 true, .cmd 1 0, .ret 1 0 true, .cmd 1 1,
+     .ret 1 1 true, .done 1 true, .hacc 3, .cmd 3 0, .ret 3 0 true, .done 3 true, .cmd 0 2, .ret 0 2 true,
+     .done 0 true, .mwait true, .fin 0 true, .fin 1 true, .fin 3 true, .root true] := by decide
+
 /-! steering of `gEx16`: the fail handler (task 2) is held in its first command until the finally
 handler (task 3) has started -/
 
